@@ -33,6 +33,21 @@ M = [
  ("benign-rename-loop-var", "src/move_generator/targets.rs", "        for x in 0..64 {\n            let square = Bitboard(1 << x);", "        for idx in 0..64 {\n            let square = Bitboard(1 << idx);", "ok", ["C06"]),
  ("benign-rename-local-in-apply", "src/chess_move/standard.rs", "re:\\bcaptured_piece_and_color\\b", "taken", "ok", ["C03"]),
  ("benign-rename-param", "src/board/piece_set.rs", "re:\\bsquare\\b", "sq_word", "ok", ["C05"]),
+ # ---- extracted helpers (behaviour-preserving; R19 inlines un-contracted private helpers)
+ ("benign-extract-helper-clock", "src/chess_move/standard.rs", [
+     ("        if captured_piece_and_color.is_some() || piece_to_move == Piece::Pawn {\n            board.reset_halfmove_clock();\n        } else {\n            board.increment_halfmove_clock();\n        }\n",
+      "        update_halfmove_clock(board, captured_piece_and_color.is_some() || piece_to_move == Piece::Pawn);\n"),
+     ("/// Determines if a move is an en passant move.", "fn update_halfmove_clock(board: &mut Board, reset: bool) {\n    if reset {\n        board.reset_halfmove_clock();\n    } else {\n        board.increment_halfmove_clock();\n    }\n}\n\n/// Determines if a move is an en passant move."),
+   ], None, "ok", ["C03", "C16"]),
+ ("benign-extract-helper-key", "src/move_generator/mod.rs", [
+     ("        let key = (board.current_position_hash(), player as u8);\n", "        let key = cache_key(board, player);\n"),
+     ("fn count_positions_inner(", "fn cache_key(board: &Board, player: Color) -> (u64, u8) {\n    (board.current_position_hash(), player as u8)\n}\n\nfn count_positions_inner("),
+   ], None, "ok", ["C02"]),
+ ("extract-helper-wrong-clock", "src/chess_move/standard.rs", [
+     ("        if captured_piece_and_color.is_some() || piece_to_move == Piece::Pawn {\n            board.reset_halfmove_clock();\n        } else {\n            board.increment_halfmove_clock();\n        }\n",
+      "        update_halfmove_clock(board, captured_piece_and_color.is_some());\n"),
+     ("/// Determines if a move is an en passant move.", "fn update_halfmove_clock(board: &mut Board, reset: bool) {\n    if reset {\n        board.reset_halfmove_clock();\n    } else {\n        board.increment_halfmove_clock();\n    }\n}\n\n/// Determines if a move is an en passant move."),
+   ], None, "violation", ["C16"]),
  # ---- apply / undo (C03 C04 C12 C16)
  ("castle-undo-forgets-halfmove-pop", "src/chess_move/castle.rs", "        board.pop_halfmove_clock();\n        board.pop_en_passant_target();\n        board.pop_castle_rights();\n\n        Ok(())\n    }\n}\n\nimpl fmt::Display for CastleChessMove", "        board.pop_en_passant_target();\n        board.pop_castle_rights();\n\n        Ok(())\n    }\n}\n\nimpl fmt::Display for CastleChessMove", "violation", ["C04"]),
  ("ep-victim-wrong-direction", "src/chess_move/en_passant.rs", "            Color::White => *to_square >> 8,\n            Color::Black => *to_square << 8,\n        };\n\n        if board.remove", "            Color::White => *to_square << 8,\n            Color::Black => *to_square >> 8,\n        };\n\n        if board.remove", "violation", ["C03"]),
@@ -77,7 +92,13 @@ def run_one(m):
                         '--exclude', 'target/release', REPO + '/', dst + '/'], check=True)
         p = os.path.join(dst, rel)
         s = open(p).read()
-        if old.startswith('re:'):
+        if isinstance(old, list):
+            for (o1, n1) in old:
+                if s.count(o1) != 1:
+                    return {'name': name, 'error': 'pattern %r matches %d times' % (o1[:30], s.count(o1))}
+                s = s.replace(o1, n1)
+            open(p, 'w').write(s)
+        elif old.startswith('re:'):
             import re
             s2, n = re.subn(old[3:], new, s)
             if n == 0:
